@@ -476,6 +476,27 @@ where
     });
 }
 
+/// Like [`run_variant`], and the generated getters of the variant are called on the prefix parse.
+pub fn run_variant_with<'i, R, T>(inp: &Inputs<'i>, out: &mut CaseObs, getters: fn(&T, &mut NodeObs))
+where
+    R: RuleType,
+    T: ParsableTypedNode<'i, R> + Pairs<'i, R> + Debug + Clone + PartialEq,
+{
+    run_variant::<R, T>(inp, out);
+    if inp.groups & grp::GETTERS != 0 {
+        let r = catch_unwind(AssertUnwindSafe(|| {
+            T::try_parse_partial(inp.s).ok().map(|(_, node)| {
+                let mut o = NodeObs::default();
+                getters(&node, &mut o);
+                o.getters
+            })
+        }));
+        if let (Ok(Some(g)), Res::Ok(n)) = (r, &mut out.s.parse_partial) {
+            n.getters = g;
+        }
+    }
+}
+
 // ---------------------------------------------------------------------------------------------
 // Getter flattening (C16)
 // ---------------------------------------------------------------------------------------------
